@@ -79,10 +79,24 @@ NA = {
 PLANNED = []
 
 
+HIST = " In a quarter of the runs the schema is reached through a longer edit history (scaffold types added and removed, fields added later or added and removed) with the same final content."
+
+# sentences added to the level text as workloads were widened
+EXTRA = {
+    "C15": " Now and then the caller re-keys a type's Rels map (a relationship is what its Rel value says, whatever key it sits under).",
+    "C17": " In half of the runs a third twin is a Wrapper made from a struct value (Wrap copies it); types may have relationships only.",
+    "C08": " Filter objects are written with their members in any order, now and then with white space." + HIST,
+    "C01": HIST + " Now and then the schema's soft type is edited (one attribute removed, one added) while the sender's resource is alive and untouched.",
+    "C02": HIST, "C05": HIST, "C03": HIST + " Documents may carry top-level links of their own.", "C11": HIST + " Documents may carry top-level links of their own.",
+    "C12": " MarshalDocument is now and then given a page of 100..500 resources (rarely in the quick tier, one run in four in the thorough tier). A run that does not return within 120 s is reported as a violation (all checks).",
+}
+
+
 def main():
     checks = []
     for pid in sorted(CLAIMED):
         eng, ref, text, note, tech = CLAIMED[pid]
+        text += EXTRA.get(pid, "")
         checks.append({
             "property_id": pid,
             "quick_cmd": f"./run.sh {pid} quick",
@@ -129,8 +143,8 @@ def main():
         "checks": checks,
         "not_applicable": na,
         "notes": "All checks: exit 0 held / 1 VIOLATION line / 2 harness or build trouble. VERIF_SEED selects the batch; VERIF_REPO overrides /repo. "
-                 "Open known findings (KNOWN-FINDING lines, exit 0): see known_findings.json. Sensitivity: seeded/ (127 changes from independent sub-agents, 123 detected), "
-                 "benign/ (12 behaviour-preserving refactors, silent), tools/revert_fixes.sh. fix: commits in /repo: " + "; ".join(fixes),
+                 "Open known findings (KNOWN-FINDING lines, exit 0): see known_findings.json. Sensitivity: seeded/ (183 changes from independent sub-agents: 177 detected by the quick tier, 1 more by the thorough tier, 5 not, see DESIGN.md section 9), "
+                 "benign/ (24 behaviour-preserving refactors, all silent), tools/revert_fixes.sh. fix: commits in /repo: " + "; ".join(fixes),
     }
     with open(os.path.join(VERIF, "MANIFEST.json"), "w") as f:
         json.dump(man, f, indent=1)
